@@ -177,7 +177,7 @@ class add_backref_op(base_op_state):
 
 
 class remove_op(base_op_state):
-    __slots__ = ()
+    __slots__ = ("filtered_already",)
     desc = "remove"
 
     def apply(self, plan):
@@ -185,22 +185,26 @@ class remove_op(base_op_state):
         plan._remove_pkg_blockers(self.choices)
         del plan.pkg_choices[self.pkg]
         plan.plan.append(self)
+        # an earlier removal of the same package may still be filtering it
+        self.filtered_already = self.pkg in plan.vdb_filter
         plan.vdb_filter.add(self.pkg)
 
     def revert(self, plan):
         plan.state.fill_slotting(self.pkg, force=True)
         plan.pkg_choices[self.pkg] = self.choices
-        plan.vdb_filter.remove(self.pkg)
+        if not self.filtered_already:
+            plan.vdb_filter.remove(self.pkg)
 
 
 class replace_op(base_op_state):
-    __slots__ = ("force_old", "old_choices", "old_pkg")
+    __slots__ = ("filtered_already", "force_old", "old_choices", "old_pkg")
     desc = "replace"
 
     def __init__(self, *args, **kwds):
         base_op_state.__init__(self, *args, **kwds)
         self.old_pkg, self.old_choices = None, None
         self.force_old = False
+        self.filtered_already = False
 
     def apply(self, plan):
         revert_point = plan.current_state
@@ -231,6 +235,7 @@ class replace_op(base_op_state):
         del plan.pkg_choices[old]
         plan.pkg_choices[self.pkg] = self.choices
         plan.plan.append(self)
+        self.filtered_already = old in plan.vdb_filter
         plan.vdb_filter.add(old)
 
     def revert(self, plan):
@@ -245,7 +250,8 @@ class replace_op(base_op_state):
             )
         del plan.pkg_choices[self.pkg]
         plan.pkg_choices[self.old_pkg] = self.old_choices
-        plan.vdb_filter.remove(self.old_pkg)
+        if not self.filtered_already:
+            plan.vdb_filter.remove(self.old_pkg)
 
     def __str__(self):
         s = ""
